@@ -168,6 +168,16 @@ func expand(t fsmodel.Tree, req string) []string {
 func judgeC18(c c18Case) (string, string) {
 	bfs := &budgetFS{fs: memfs.New(c.Tree), limit: 2000}
 	res, err := fsutil.FollowLinks(bfs, c.Requests)
+	// the same tree behind an FS that reports a missing walk target as the not-exist error it is (filepath.WalkDir,
+	// io/fs adapters) instead of swallowing it: a missing location is still a location, not a failure
+	{
+		strict := memfs.New(c.Tree)
+		strict.NotExistIsError = true
+		sres, serr := fsutil.FollowLinks(&budgetFS{fs: strict, limit: 2000}, c.Requests)
+		if (serr == nil) != (err == nil) || strings.Join(sres, "\x00") != strings.Join(res, "\x00") {
+			return "not-exist-error-changes-result", fmt.Sprintf("over an FS whose Walk returns the not-exist error for a missing target FollowLinks gives %q (%v), otherwise %q (%v)", sres, serr, res, err)
+		}
+	}
 	if err != nil {
 		if bfs.calls.Load() > bfs.limit {
 			return "no-termination", fmt.Sprintf("more than %d directory walks without an answer", bfs.limit)
@@ -519,6 +529,20 @@ func runC18(r *evid.Run) {
 			cases = append(cases, c18Case{Tree: dot, Requests: l, Transfer: len(l) == 1})
 		}
 		trees = append(trees, dot)
+	}
+	// entries whose own names contain pattern metacharacters, as links and as plain entries: a name that a wildcard
+	// matched is a name, not a pattern
+	{
+		T := fsmodel.T0
+		gl := trees[0].Clone()
+		gl = append(gl, fsmodel.Node{Path: "d/l?", Kind: fsmodel.Symlink, Perm: 0777, Mtime: T, Link: "../m"}, fsmodel.Node{Path: "d/[ab]", Kind: fsmodel.Symlink, Perm: 0777, Mtime: T, Link: "../a/b"},
+			fsmodel.Node{Path: "d/a", Kind: fsmodel.File, Perm: 0644, Mtime: T, Data: []byte("da")}, fsmodel.Node{Path: "x*", Kind: fsmodel.Symlink, Perm: 0777, Mtime: T, Link: "a"},
+			fsmodel.Node{Path: "d/s*", Kind: fsmodel.Symlink, Perm: 0777, Mtime: T, Link: "s/x"})
+		gl.Sort()
+		for _, l := range [][]string{{"d/l*"}, {"d/*"}, {"d/l?"}, {"d/?"}, {"d/??"}, {"*"}, {"x*"}, {"d/[[]*"}, {"d/s*"}, {"d/*", "x*"}, {"*/l?"}, {"d/[ab]"}} {
+			cases = append(cases, c18Case{Tree: gl, Requests: l, Transfer: len(l) == 1})
+		}
+		trees = append(trees, gl)
 	}
 	r.Set("cases", len(cases))
 	r.Set("trees", len(trees))
